@@ -136,9 +136,36 @@ def expected_objs(cls):
     return out
 
 
+CALL_SECONDS = 8          # wall-time limit of one call of the implementation
+CALL_RECURSION = 1500     # recursion limit during such a call
+MAX_SCHEMES = 30000       # cap on the schemes taken from the generator
+
+
+class CallTimeout(BaseException):
+    pass
+
+
+def _on_alarm(signum, frame):
+    raise CallTimeout()
+
+
 def call(f, *a, **kw):
+    """runs the implementation under a wall-time limit (SIGALRM) and a
+    lowered recursion limit: a diverging or exploding call becomes a status
+    ('timeout', 'recursion') that is reported as a violation, never a hang"""
+    import signal
+    old_rec = sys.getrecursionlimit()
+    old_h = signal.signal(signal.SIGALRM, _on_alarm)
+    signal.setitimer(signal.ITIMER_REAL, CALL_SECONDS)
+    sys.setrecursionlimit(CALL_RECURSION)
     try:
         return ("ok", f(*a, **kw))
+    except CallTimeout:
+        return ("timeout", f"no result within {CALL_SECONDS} s")
+    except RecursionError:          # (subclass of RuntimeError)
+        return ("recursion", f"recursion deeper than {CALL_RECURSION}")
+    except MemoryError:
+        return ("timeout", "MemoryError")
     except AssertionError:
         return ("assert", None)
     except NotImplementedError:     # (subclass of RuntimeError)
@@ -149,6 +176,13 @@ def call(f, *a, **kw):
         return ("typeerror", str(ex))
     except Exception as ex:     # anything else: reported by the caller
         return ("exception", repr(ex))
+    finally:
+        signal.setitimer(signal.ITIMER_REAL, 0)
+        signal.signal(signal.SIGALRM, old_h)
+        sys.setrecursionlimit(old_rec)
+
+
+DIVERGED = ("timeout", "recursion", "exception", "too-many")
 
 
 class Case:
@@ -159,6 +193,10 @@ def observe(spec):
     """run the implementation on one case specification"""
     c = Case()
     c.spec = spec
+    c.sel = c.un = c.enum = c.groups = c.objs = c.diverged = None
+    c.opt_lit = ("notimpl", None)
+    c.un_status = c.opt_status = "ok"
+    c.names_str = ()
     c.term = build_term(spec["factors"])
     if c.term is None:
         return None
@@ -178,13 +216,20 @@ def observe(spec):
     c.cnt_un = U.counter_value()
     st, un = call(OC.unoptimized_contraction, c.term, c.tstr, c.tspin)
     c.un_status = st
+    c.diverged = None
+    if st in DIVERGED:
+        c.diverged = ("unoptimized_contraction", st, un)
+        c.un = None
+        return c
     c.un = U.conv_scheme(un, cv) if st == "ok" else None
     c.sel = None
     c.opt_lit = ("notimpl", None)
     if c.objs is None:
-        st2, _ = call(OC.optimize_contractions, c.term, c.tstr, c.tspin,
-                      c.mid, c.mg)
+        st2, r2 = call(OC.optimize_contractions, c.term, c.tstr, c.tspin,
+                       c.mid, c.mg)
         c.opt_status = st2
+        if st2 in DIVERGED:
+            c.diverged = ("optimize_contractions", st2, r2)
         return c
     if st == "ok":
         c.extracted = list(zip(c.un[0]["names"], c.un[0]["idx"]))
@@ -202,15 +247,26 @@ def observe(spec):
     c.names_str, c.idxs_sym = tuple(names_str), tuple(idxs_sym)
     tgt = tuple(tgs)
     st, g = call(OC._group_objects, c.idxs_sym, tgt, c.mg)
+    if st in DIVERGED:
+        c.diverged = ("_group_objects", st, g)
+        return c
     c.groups = [list(x) for x in g] if st == "ok" else None
     # enumeration
     c.cnt_enum = U.counter_value()
     c.enum = None
     if len(c.objs) >= 2:
-        st, ss = call(lambda: list(OC._optimize_contractions(
-            c.names_str, c.idxs_sym, tgt, c.mid, c.mg)))
+        import itertools
+        st, ss = call(lambda: list(itertools.islice(
+            OC._optimize_contractions(c.names_str, c.idxs_sym, tgt, c.mid,
+                                      c.mg), MAX_SCHEMES + 1)))
+        if st == "ok" and len(ss) > MAX_SCHEMES:
+            st, ss = "too-many", f"more than {MAX_SCHEMES} schemes"
+        c.enum_status = st
         if st == "ok":
             c.enum = [U.conv_scheme(s, cv) for s in ss]
+        elif st in DIVERGED:
+            c.diverged = ("_optimize_contractions", st, ss)
+            return c
     c.cnt_enum_after = U.counter_value()
     # optimize_contractions
     c.cnt_opt = U.counter_value()
@@ -221,6 +277,9 @@ def observe(spec):
     c.opt_status = st
     c.cnt_opt_after = U.counter_value()
     c.sel = None
+    if st in DIVERGED:
+        c.diverged = ("optimize_contractions", st, res)
+        return c
     if st == "ok":
         if isinstance(res, Contraction):
             c.opt_lit = ("bare", U.conv_step(res, cv))
@@ -519,10 +578,58 @@ KNOWN_CORES = [
     "A_i,A_i,B_i,C_ijj,D_j->;max_n=4", "A_,B_ij,C_ijj,D_ik->k"]
 
 
+def history_stream(rng, quick):
+    """sequences of requests for the SAME objects (identical index tuples)
+    with different target sets / orders in one process: the result of a
+    request must not depend on earlier requests.  Runs first, so that the
+    recorded sequence replays in a fresh process."""
+    out = []
+
+    def seq(label, factors, targets):
+        for n, tg in enumerate(targets):
+            out.append({"label": f"hist:{label}:{n}", "factors": factors,
+                        "target": [(x, "") if isinstance(x, str) else x
+                                   for x in tg], "mid": None, "mg": None,
+                        "stream": "history"})
+    seq("AiaBijabCjb", [T("A", "ia"), T("B", "ijab"), T("C", "jb")],
+        ["", "jb", "ia", "ai", "bj", "", "ijab", "ib"])
+    seq("XijYij", [T("X", "ij"), T("Y", "ij")], ["i", "j", "ji", "", "ij"])
+    seq("chain", [T("A", "ij"), T("B", "jk"), T("C", "kl")],
+        ["il", "li", "ijl", "il", "ljki", "kli"])
+    seq("AijBijCj", [T("A", "ij"), T("B", "ij"), T("C", "j")],
+        ["", "j", "ij", "i", ""])
+    seq("anti", [T("Y", "jb", 1, "anti"), T("t1", "jkbc", 1, "amp"),
+                 T("W", "ikac")], ["ia", "ai", "iakc", "ia"])
+    seq("trace", [T("A", "iij"), T("B", "jkk")], ["", "j", "i", "ik", ""])
+    n_rand = 6 if quick else 30
+    k = tries = 0
+    while k < n_rand and tries < 400:
+        tries += 1
+        factors, style = gen_pattern(rng)
+        cnt = {}
+        for f in factors:
+            for x in f[2]:
+                cnt[x] = cnt.get(x, 0) + 1
+        once = [x for x in cnt if cnt[x] == 1]
+        multi = [x for x in cnt if cnt[x] > 1]
+        if len(factors) < 2 or not multi or \
+                len({bool(x[1]) for x in cnt}) > 1:
+            continue
+        tgs = []
+        for _ in range(rng.randint(3, 5)):
+            t = once + rng.sample(multi, rng.randint(0, min(3, len(multi))))
+            rng.shuffle(t)
+            tgs.append(t)
+        tgs.append(list(tgs[0]))
+        seq(f"rand{k}:{style}", factors, tgs)
+        k += 1
+    return out
+
+
 def gen_cases(ctx):
     rng = ctx.rng
     quick = ctx.tier == "quick"
-    cases = list(corpus())
+    cases = history_stream(rng, quick) + list(corpus())
     n_rand = 420 if quick else 2600
     k = 0
     tries = 0
@@ -555,6 +662,74 @@ def gen_cases(ctx):
 
 
 # --------------------------------------------------------------------------
+def skipped(num):
+    return isinstance(num, dict) and "skipped" in num
+
+
+def failed(num):
+    """numeric comparison made and different (or evaluation refused because
+    the step data are inconsistent)"""
+    return num is not True and not skipped(num)
+
+
+def summarize(c):
+    """verdict of the wf mirror / numeric comparison for one observed case"""
+    if c is None:
+        return {"ok": True, "kind": "not-a-term"}
+    if c.diverged is not None:
+        return {"ok": False, "kind": "diverged", "detail": c.diverged[:2]}
+    out = {"kind": c.opt_lit[0], "targets": c.tstr}
+    ok = True
+    if c.sel is not None:
+        out["wf"] = U.wf_scheme(c.objs, c.tg, c.sel)
+        out["numeric"] = U.numeric_check(c.objs, c.tg, c.sel)
+        out["selected"] = scheme_text(c.sel)
+        ok = out["wf"] and not failed(out["numeric"])
+    if c.un is not None and c.objs is not None:
+        out["unopt_wf"] = U.wf_scheme(c.objs, c.tg, c.un)
+        out["unopt_numeric"] = U.numeric_check(c.objs, c.tg, c.un)
+        ok = ok and out["unopt_wf"] and not failed(out["unopt_numeric"])
+    out["ok"] = bool(ok)
+    return out
+
+
+def run_sequence(specs):
+    """observes the specifications in order in THIS process"""
+    out = []
+    for sp in specs:
+        sp = dict(sp)
+        sp["factors"] = [(f[0], f[1], [tuple(x) for x in f[2]], f[3])
+                         for f in sp["factors"]]
+        sp["target"] = [tuple(x) for x in sp["target"]]
+        c = observe(sp)
+        if c is not None and not spec_consistent(c):
+            out.append({"ok": True, "kind": "inconsistent-request"})
+        else:
+            out.append(summarize(c))
+    return out
+
+
+def fresh_run(specs, timeout=90):
+    """the same specifications in a fresh interpreter (no process history);
+    list of verdicts, or None if the subprocess failed"""
+    import json
+    import subprocess
+    code = ("import sys, json; sys.setrecursionlimit(100000); "
+            "import props.c16 as m; "
+            "print('C16FRESH' + json.dumps(m.run_sequence(json.loads("
+            "sys.stdin.read())), default=str))")
+    try:
+        p = subprocess.run([sys.executable, "-c", code],
+                           input=json.dumps(specs), capture_output=True,
+                           text=True, timeout=timeout)
+    except subprocess.TimeoutExpired:
+        return [{"ok": False, "kind": "timeout"}]
+    for ln in p.stdout.splitlines():
+        if ln.startswith("C16FRESH"):
+            return json.loads(ln[8:])
+    return None
+
+
 def spec_consistent(c):
     """requested targets distinct and containing every index that occurs
     exactly once among the relevant objects"""
@@ -618,10 +793,14 @@ def shrink(spec):
         tg += [x for x, n in cnt.items() if n == 1 and x not in tg]
         return dict(s, target=tg)
 
+    import time
     steps = 0
-    while improved and steps < 200:
+    deadline = time.time() + 15
+    while improved and steps < 200 and time.time() < deadline:
         improved = False
         for v in variants(best):
+            if time.time() > deadline:
+                break
             steps += 1
             v = fix_targets(v)
             if selected_fails(v) is not None:
@@ -698,9 +877,13 @@ def canonical_core(spec):
                     + spec["factors"][k + 1:])
         if g != f and selected_fails(cand) is not None:
             spec = cand
+    import time
+    deadline = time.time() + 15
     best, best_key = None, None
     for to_occ in (True, False):
         for order in itertools.permutations(range(n)):
+            if time.time() > deadline:
+                break
             try:
                 cand = _rename(spec, order, to_occ)
             except ValueError:
@@ -742,17 +925,18 @@ def run(ctx):
     t0 = time.time()
     specs = gen_cases(ctx)
     obs = []
+    diverged = []
+    hist_specs = [sp for sp in specs if sp.get("stream") == "history"]
     for spec in specs:
+        if len(diverged) >= 4:      # circuit breaker: bounded run time
+            ctx.note("stopped observing after 4 diverging calls; "
+                     f"{len(specs) - specs.index(spec)} specifications not run")
+            break
         c = observe(spec)
         if c is None:
             continue
-        bad = [s for s in (c.un_status, getattr(c, "opt_status", "ok"))
-               if s == "exception"]
-        if bad:
-            ctx.violation(f"C16:exception:{spec['label']}",
-                          "implementation raised an unexpected exception",
-                          {"spec": spec, "status": [c.un_status, c.opt_status,
-                                                    c.opt_lit]}, True)
+        if c.diverged is not None:
+            diverged.append(c)
             continue
         obs.append(c)
     ctx.note(f"{len(specs)} specifications, {len(obs)} observed cases, "
@@ -771,14 +955,47 @@ def run(ctx):
     stats = {"enumerated_schemes": 0, "enumerated_not_wf": 0,
              "selected_not_wf": 0, "numeric_runs": 0, "steps_selected": 0}
     reported = set()
+    budget = {"fresh": 3, "shrink": 6, "history_mode": False,
+              "generic_history": []}
+    cat_count = {}
 
     def violation(key, what, rep, found):
         if key in reported:
             return
         reported.add(key)
+        cat = ":".join(key.split(":")[:3]) if "mismatch" in key \
+            else ":".join(key.split(":")[:2])
+        cat_count[cat] = cat_count.get(cat, 0) + 1
+        if cat_count[cat] > 25:     # the rest is counted in the notes
+            return
         ctx.violation(key, what, rep, found)
 
-    for c, rv in zip(obs, rel_vals):
+    def sequence_for(c):
+        """history-stream cases: all requests of the stream up to this one
+        (the stream runs first in the process)"""
+        if c.spec.get("stream") != "history":
+            return None
+        return hist_specs[:hist_specs.index(c.spec) + 1]
+
+    for c in diverged:
+        d = describe(c)
+        fn, st, detail = c.diverged
+        seq = sequence_for(c)
+        fresh = None
+        if seq is None and budget["fresh"] > 0:
+            budget["fresh"] -= 1
+            fresh = fresh_run([c.spec])
+        ctx.obligation(f"implementation terminates: {d['label']}", False)
+        violation(f"C16:diverges:{fn}:{d['pattern']}",
+                  f"{fn} does not return ({st}: {detail}) on a request that "
+                  "the model answers" + (
+                      "; the same request alone in a fresh process: "
+                      f"{fresh}" if fresh is not None else ""),
+                  {"case": d, "status": st, "detail": str(detail),
+                   "sequence": seq, "fresh_process": fresh,
+                   "earlier_requests_in_process": specs.index(c.spec)}, True)
+
+    def check_case(c, rv, viol):
         d = describe(c)
         consistent = spec_consistent(c)
         nobj = len(c.objs) if c.objs is not None else -1
@@ -789,25 +1006,25 @@ def run(ctx):
                          "limits": [c.mid, c.mg],
                          "selected": scheme_text(c.sel) if c.sel else
                          c.opt_lit[0] if c.objs is not None else "notimpl"},
-                 kind=f"{stream if not consistent or stream == 'corpus' else c.spec['label'].split(':')[1]}"
+                 kind=f"{stream if not consistent or stream in ('corpus', 'history') else c.spec['label'].split(':')[1]}"
                       f":n{min(nobj, 6)}")
         # object extraction
         ok = rv is not None and rv.replace(" ", "") == "(true,true)"
         if c.objs is None:
             ok = ok and c.un_status == "notimpl" and c.opt_status == "notimpl"
         if not ctx.obligation(f"relevant_objs {d['label']}", ok, str(rv)):
-            violation(f"C16:model-mismatch:relevant_objs:{d['pattern']}",
+            viol(f"C16:model-mismatch:relevant_objs:{d['pattern']}",
                       "extraction of the relevant objects differs from the "
                       "model", {"case": d, "coq": rv, "classified": str(c.cls),
                                 "un_status": c.un_status}, False)
         if c.objs is None:
-            continue
+            return
         v = res.get(id(c))
         if v is None:
             ctx.obligation(f"coq evaluation {d['label']}", False)
-            violation(f"C16:coq-eval-failed:{d['label']}",
+            viol(f"C16:coq-eval-failed:{d['label']}",
                       "Coq evaluation of the model failed", {"case": d}, False)
-            continue
+            return
         r = parse_result(v)
         # groups / enumeration / selection / unoptimised: exact
         py_dig = [U.scheme_digest(s) for s in (c.enum or [])]
@@ -822,7 +1039,7 @@ def run(ctx):
         ]
         for nm, okk in checks:
             if not ctx.obligation(f"{nm} = model: {d['label']}", okk):
-                violation(f"C16:model-mismatch:{nm}:{d['pattern']}",
+                viol(f"C16:model-mismatch:{nm}:{d['pattern']}",
                           f"{nm}: implementation and Gallina model differ",
                           {"case": d, "coq": v[:3000],
                            "python_groups": c.groups,
@@ -833,7 +1050,7 @@ def run(ctx):
         stats["enumerated_schemes"] += len(py_wf)
         if not ctx.obligation(f"wf mirror = Coq wf_scheme: {d['label']}",
                               py_wf == r["enum_wf"] or r["digests"] != py_dig):
-            violation(f"C16:harness:wf-mirror:{d['pattern']}",
+            viol(f"C16:harness:wf-mirror:{d['pattern']}",
                       "Python mirror of wf_scheme disagrees with Coq",
                       {"case": d}, False)
         stats["enumerated_not_wf"] += sum(1 for x in r["enum_wf"] if not x)
@@ -845,15 +1062,18 @@ def run(ctx):
             if c.sel is not None and not r["r_selected_wf"]:
                 stats["inconsistent_not_wf"] = \
                     stats.get("inconsistent_not_wf", 0) + 1
-            continue
+            return
         # every enumerated scheme is well-formed (theorem
         # C16_enumerate_schemes_wf for the model; here on the implementation)
-        bad = [k for k, x in enumerate(r["enum_wf"]) if not x]
+        # (Coq's verdicts are those of the model's enumeration; if the
+        # implementation enumerates something else the mirror decides)
+        impl_wf = r["enum_wf"] if r["digests"] == py_dig else py_wf
+        bad = [k for k, x in enumerate(impl_wf) if not x]
         stats["enumerated_not_wf_consistent"] = \
             stats.get("enumerated_not_wf_consistent", 0) + len(bad)
         if not ctx.obligation(f"all enumerated schemes wf: {d['label']}",
                               not bad):
-            violation("C16:enumerated-scheme-not-wf:" + d["pattern"],
+            viol("C16:enumerated-scheme-not-wf:" + d["pattern"],
                       "_optimize_contractions yields a scheme rejected by "
                       "wf_scheme", {"case": d, "scheme": scheme_text(
                           c.enum[bad[0]]) if c.enum else None,
@@ -866,38 +1086,57 @@ def run(ctx):
                     "optimize_contractions returns a bare Contraction (not a "
                     "list) for a term with a single index-free tensor")
             ctx.obligation(f"single object handled: {d['label']}", False)
-            violation(f"C16:single-object:{kind}", what,
+            viol(f"C16:single-object:{kind}", what,
                       {"case": d, "detail": c.opt_lit[1] if kind ==
                        "typeerror" else scheme_text([c.opt_lit[1]])}, True)
         if c.sel is not None:
             stats["steps_selected"] += len(c.sel)
             num = U.numeric_check(c.objs, c.tg, c.sel)
-            stats["numeric_runs"] += 1
+            stats["numeric_runs"] += 0 if skipped(num) else 1
+            stats["numeric_skipped"] = stats.get("numeric_skipped", 0) + \
+                (1 if skipped(num) else 0)
             wf = r["r_selected_wf"]
             ctx.obligation(f"selected scheme wf (Coq): {d['label']}", wf)
             if not wf:
                 stats["selected_not_wf"] += 1
-                if num is True:
+                if not failed(num):
                     stats["not_wf_but_numerically_equal"] = \
                         stats.get("not_wf_but_numerically_equal", 0) + 1
-                core = shrink(dict(c.spec))
-                cc = selected_fails(core) or c
+                hist = c.spec.get("stream") == "history"
+                fresh = None
+                if not hist and not budget["history_mode"] and \
+                        budget["fresh"] > 0:
+                    budget["fresh"] -= 1
+                    fresh = fresh_run([c.spec])
+                    if fresh and fresh[-1].get("ok"):
+                        budget["history_mode"] = True
+                if budget["history_mode"] and not hist:
+                    # the request alone is answered correctly: the failure
+                    # depends on the process history; shrinking is pointless
+                    budget["generic_history"].append(d["label"])
+                    return
+                cc = c
+                if not hist and budget["shrink"] > 0:
+                    budget["shrink"] -= 1
+                    core = shrink(dict(c.spec))
+                    cc = selected_fails(core) or c
                 cnum = U.numeric_check(cc.objs, cc.tg, cc.sel)
                 key = "C16:selected-scheme-not-wf:" + U.pattern_key(
                     cc.objs, cc.tg, cc.mid, cc.mg)
-                violation(
+                viol(
                     key, "optimize_contractions returns a scheme that does "
                     "not compute the term: a step sums an index that still "
-                    "occurs outside the step (wf_scheme = false in Coq)",
+                    "occurs outside the step, or the last step does not "
+                    "carry the requested targets (wf_scheme = false in Coq)",
                     {"case": d, "selected": scheme_text(c.sel),
                      "numeric": num, "shrunk_case": describe(cc),
                      "shrunk_selected": scheme_text(cc.sel),
-                     "shrunk_numeric": cnum,
+                     "shrunk_numeric": cnum, "fresh_process": fresh,
                      "groups": c.groups},
-                    (num is not True or cnum is not True))
-            elif num is not True:
+                    (failed(num) or failed(cnum)))
+            elif failed(num):
                 ctx.obligation(f"numeric value: {d['label']}", False)
-                violation(f"C16:value:{d['pattern']}",
+                viol(f"C16:value:{d['pattern']}",
                           "well-formed scheme does not evaluate to the term "
                           "(contradicts wf_scheme_correct: harness error?)",
                           {"case": d, "selected": scheme_text(c.sel),
@@ -910,7 +1149,7 @@ def run(ctx):
                     ("scaling <= simultaneous contraction", "r_le_hyper",
                      "a step scales worse than the simultaneous contraction")):
                 if not ctx.obligation(f"{nm}: {d['label']}", r[fld]):
-                    violation(f"C16:{fld[2:]}:{d['pattern']}", what,
+                    viol(f"C16:{fld[2:]}:{d['pattern']}", what,
                               {"case": d, "selected": scheme_text(c.sel)},
                               True)
             # names of results are unique and differ from base names
@@ -918,53 +1157,81 @@ def run(ctx):
             okn = len(set(ids)) == len(ids) and \
                 not set(ids) & set(c.names_str)
             if not ctx.obligation(f"unique result names: {d['label']}", okn):
-                violation(f"C16:names:{d['pattern']}", "result names of the "
+                viol(f"C16:names:{d['pattern']}", "result names of the "
                           "contractions are not unique", {"case": d}, True)
         if c.un is not None:
             numu = U.numeric_check(c.objs, c.tg, c.un)
-            stats["numeric_runs"] += 1
-            oku = r["r_unopt_wf"] and numu is True
+            stats["numeric_runs"] += 0 if skipped(numu) else 1
+            oku = r["r_unopt_wf"] and not failed(numu)
             if not ctx.obligation(f"unoptimized wf + value: {d['label']}",
                                   oku):
-                violation(f"C16:unoptimized:{d['pattern']}",
+                viol(f"C16:unoptimized:{d['pattern']}",
                           "unoptimized_contraction is not well-formed or "
                           "does not evaluate to the term",
                           {"case": d, "scheme": scheme_text(c.un),
                            "numeric": numu, "wf": r["r_unopt_wf"]},
-                          numu is not True)
+                          failed(numu) or not r["r_unopt_wf"])
+    for c, rv in zip(obs, rel_vals):
+        if c.spec.get("stream") != "history":
+            check_case(c, rv, violation)
+            continue
+        reasons = []
+        check_case(c, rv, lambda key, what, rep, found:
+                   reasons.append((key, what, rep, found)))
+        if reasons:
+            d = describe(c)
+            violation(
+                "C16:history-dependent:" + d["pattern"],
+                "the result for this request depends on the requests made "
+                "earlier in the same process (same objects, other target "
+                "indices): " + reasons[0][1],
+                {"case": d, "sequence": sequence_for(c),
+                 "reasons": [(k, w) for k, w, _, _ in reasons][:6],
+                 "details": reasons[0][2]},
+                any(f for _, _, _, f in reasons))
+    if budget["generic_history"]:
+        violation("C16:history-dependent:process-state",
+                  f"{len(budget['generic_history'])} further requests return "
+                  "schemes that do not compute the term although the same "
+                  "request alone in a fresh process is answered correctly",
+                  {"labels": budget["generic_history"][:20]}, False)
+    over = {k: n for k, n in cat_count.items() if n > 25}
+    if over:
+        ctx.note(f"violations per category beyond the 25 written: {over}")
     ctx.extra["c16_stats"] = stats
     ctx.note(str(stats))
 
 
 def replay(ctx, rep):
-    """re-executes the recorded case on the implementation: prints the
-    selected scheme, the verdict of the wf mirror and the numeric comparison
-    with the brute-force value of the term; exit code 1 if it still fails"""
+    """re-executes the recorded request -- or, for history-dependent
+    failures, the recorded SEQUENCE of requests in this (fresh) process -- on
+    the implementation; prints the selected scheme, the verdict of the wf
+    mirror and the numeric comparison with the brute-force value of the term;
+    exit code 1 if it still fails"""
     r = rep.get("replay", rep)
     rc = 0
+    if r.get("sequence"):
+        print(f"--- sequence of {len(r['sequence'])} requests in one process")
+        for sp, v in zip(r["sequence"], run_sequence(r["sequence"])):
+            tgt = "".join(x[0] for x in sp["target"])
+            print(f"{sp['label']}: targets={tgt!r} ->",
+                  {k: v[k] for k in v if k != "selected"})
+            if not v["ok"]:
+                rc = 1
+        return rc
     for tag in ("case", "shrunk_case"):
         case = r.get(tag)
         if not case or "spec" not in case:
             continue
-        spec = dict(case["spec"])
-        spec["factors"] = [(f[0], f[1], [tuple(x) for x in f[2]], f[3])
-                           for f in spec["factors"]]
-        spec["target"] = [tuple(x) for x in spec["target"]]
-        c = observe(spec)
-        print(f"--- {tag}: {c.term.sympy}  targets={c.tstr!r} "
-              f"max_itmd_dim={c.mid} max_n_simultaneous_contracted={c.mg}")
-        print("result kind:", c.opt_lit[0])
-        if c.sel is not None:
-            for st in scheme_text(c.sel):
-                print("   ", st)
-            wf = U.wf_scheme(c.objs, c.tg, c.sel)
-            num = U.numeric_check(c.objs, c.tg, c.sel)
-            print("wf_scheme (mirror):", wf, " numeric:", num)
-            if not wf or num is not True:
-                rc = 1
-        elif c.opt_lit[0] in ("typeerror", "bare", "exception"):
-            print("detail:", c.opt_lit[1] if c.opt_lit[0] != "bare" else
-                  "bare Contraction returned")
+        v = run_sequence([case["spec"]])[0]
+        print(f"--- {tag}: {case.get('term')} targets="
+              f"{case.get('target_indices')!r} "
+              f"max_itmd_dim={case.get('max_itmd_dim')} max_n="
+              f"{case.get('max_n_simultaneous_contracted')}")
+        for st in v.get("selected", []):
+            print("   ", st)
+        print({k: v[k] for k in v if k != "selected"})
+        if not v["ok"]:
             rc = 1
     if rc == 0 and "case" not in r:
         print(rep)
